@@ -2,7 +2,10 @@
 //
 //   T <workers> <rounds> <b,b,...>    raw Tcp::Handler on a Tcp::Listener; every round runs the listed client
 //        behaviours concurrently:  c connect+close, d data+close, f data/wait for echo/close, h data+shutdown(WR)+read to EOF,
-//        r data+RST, R RST at once, p ask for a 4 MB write and close without reading
+//        r data+RST, R RST at once, p ask for a 4 MB write and close without reading,
+//        K the handler keeps the peer and sends to it (Peer::send) 150 ms later; the client closes at once (fresh connections watched 300 ms)
+//        n keeps the worker busy for 150 ms; u sends data and closes, v sends data and half-closes 40 ms into that (data and end
+//          of stream reach the worker in one readiness event; nothing is written back, which would re-arm the descriptor)
 //   H <workers> <rounds> <b,b,...>    Http::Endpoint (header/body time-out 600 ms) with an Http::Handler:
 //        c connect+close, f request/response/close, k two keep-alive requests, d partial head+close, b partial body+close,
 //        h request+shutdown(WR)+read to EOF, r request+RST, i silence until the server closes, j partial head then silence,
@@ -10,6 +13,8 @@
 //        s 16 MB file asked for (Http::serveFile), 17 bytes read through a 4 kB receive buffer, close;  S the file downloaded completely;
 //        A the file asked for, 2 MB of it read, then RST while the transfer is in full swing;
 //        t answer sent after ResponseWriter::timeoutAfter(300 ms) was armed (the timer is disarmed by the answer)
+//        L request answered by a thread of the handler's own 150 ms later; the client closes at once, so the answer comes when
+//          the connection is gone and its descriptor number belongs to one of the fresh connections (watched for 300 ms)
 //   After every round as many fresh connections as the round had (at most 8) are opened together and each sends one
 //   request: it must receive exactly its own answer and nothing else (what an earlier connection on the same descriptor
 //   number left unsent must not reach it).
@@ -70,6 +75,8 @@ struct Log
 
 std::string g_file; // a 16 MB file for the file-transfer behaviours
 std::atomic<int> g_stale { 0 };
+std::atomic<int> g_more_ms { 30 };   // how long a fresh connection watches for bytes it did not ask for
+std::atomic<int> g_late_running { 0 };
 
 class RawHandler : public Tcp::Handler
 {
@@ -81,6 +88,28 @@ public:
     {
         g_log.add(peer->getID(), 'I');
         std::string cmd(buffer, len);
+        if (cmd.rfind("nap", 0) == 0) // the worker is kept busy: what other connections send meanwhile is all there at its next look
+            std::this_thread::sleep_for(std::chrono::milliseconds(150));
+        if (cmd.rfind("keep", 0) == 0)
+        {
+            // the handler keeps the peer (as code that pushes data to its clients does) and sends to it 150 ms later, when
+            // the connection is gone and its descriptor number belongs to a fresh connection
+            ++g_late_running;
+            std::thread([peer] {
+                std::this_thread::sleep_for(std::chrono::milliseconds(150));
+                try
+                {
+                    peer->send(RawBuffer("LATE!", 5), MSG_NOSIGNAL).then([](ssize_t) {}, [](std::exception_ptr) {});
+                }
+                catch (...)
+                {
+                }
+                --g_late_running;
+            }).detach();
+            return;
+        }
+        if (cmd.rfind("mute", 0) == 0) // nothing is written back (a write re-arms the descriptor in the poller)
+            return;
         std::string data = cmd.rfind("big", 0) == 0 ? std::string(4u << 20, 'x') : std::string("ok");
         transport()->asyncWrite(peer->fd(), RawBuffer(data, data.size()), MSG_NOSIGNAL).then([](ssize_t) {}, [](std::exception_ptr) {});
     }
@@ -103,6 +132,22 @@ public:
             response.send(Http::Code::Ok, std::string(24u << 20, 'x'));
         else if (req.resource() == "/file")
             Http::serveFile(response, g_file);
+        else if (req.resource() == "/late")
+        {
+            auto w = std::make_shared<Http::ResponseWriter>(std::move(response));
+            ++g_late_running;
+            std::thread([w] {
+                std::this_thread::sleep_for(std::chrono::milliseconds(150));
+                try
+                {
+                    w->send(Http::Code::Ok, "late answer");
+                }
+                catch (...)
+                {
+                }
+                --g_late_running;
+            }).detach();
+        }
         else if (req.resource() == "/timed")
         {
             response.timeoutAfter(std::chrono::milliseconds(300));
@@ -170,16 +215,28 @@ void probe(uint16_t port, size_t n, const std::string& request, Check exact)
     }
     for (int fd : fds)
         pv::send_all(fd, request);
+    std::vector<std::string> answers;
     for (int fd : fds)
     {
         std::string buf;
         pv::read_until(fd, buf, [&](const std::string& b) { return exact(b) >= 0; }, 3000);
-        // anything that follows the answer?
+        answers.push_back(buf);
+    }
+    // anything that follows the answer?  All fresh connections are watched over the same span of time (one after the
+    // other, the last ones would be open long enough for the idle scan to answer them 408).
+    if (g_more_ms.load() > 30)
+        std::this_thread::sleep_for(std::chrono::milliseconds(g_more_ms.load() - 30));
+    for (size_t i = 0; i < fds.size(); ++i)
+    {
         std::string more;
-        pv::read_until(fd, more, [](const std::string& m) { return !m.empty(); }, 30);
-        if (exact(buf) != 1 || !more.empty())
+        pv::read_until(fds[i], more, [](const std::string& m) { return !m.empty(); }, 30);
+        if (exact(answers[i]) != 1 || !more.empty())
+        {
             ++g_stale;
-        ::close(fd);
+            if (getenv("PV_STALE_DEBUG"))
+                fprintf(stderr, "stale: exact=%d answer=[%s] more=[%s]\n", exact(answers[i]), answers[i].substr(0, 200).c_str(), more.substr(0, 200).c_str());
+        }
+        ::close(fds[i]);
     }
 }
 
@@ -210,6 +267,30 @@ void raw_client(char b, uint16_t port)
         rst_close(fd);
         break;
     case 'R': rst_close(fd); break;
+    case 'K':
+        pv::send_all(fd, "keep");
+        std::this_thread::sleep_for(std::chrono::milliseconds(20));
+        ::close(fd);
+        break;
+    case 'n':
+        // keeps the worker busy for 150 ms
+        pv::send_all(fd, "nap");
+        pv::read_until(fd, buf, [](const std::string& x) { return x.size() >= 2; }, 3000);
+        ::close(fd);
+        break;
+    case 'u':
+        // data and close at once, while the worker is busy: both are there when it looks - one readiness event
+        std::this_thread::sleep_for(std::chrono::milliseconds(40));
+        pv::send_all(fd, "mute");
+        ::close(fd);
+        break;
+    case 'v':
+        std::this_thread::sleep_for(std::chrono::milliseconds(40));
+        pv::send_all(fd, "mute");
+        ::shutdown(fd, SHUT_WR);
+        read_to_eof(fd, 1500);
+        ::close(fd);
+        break;
     case 'p':
         pv::send_all(fd, "big");
         std::this_thread::sleep_for(std::chrono::milliseconds(30));
@@ -282,6 +363,11 @@ void http_client(char b, uint16_t port)
         ::close(fd);
         break;
     }
+    case 'L':
+        pv::send_all(fd, "GET /late HTTP/1.1\r\nHost: a\r\n\r\n");
+        std::this_thread::sleep_for(std::chrono::milliseconds(20));
+        ::close(fd);
+        break;
     case 'A':
     {
         // the download is in full swing (the worker is in its write loop) when the client resets the connection
@@ -320,6 +406,7 @@ template <typename Client, typename Probe>
 std::string drive(const char* tag, uint16_t port, int rounds, const std::string& behaviours, Client client, Probe probe_round)
 {
     g_stale = 0;
+    g_more_ms = behaviours.find_first_of("LK") != std::string::npos ? 300 : 30;
     // warm-up connection, then the idle baseline
     client('c', port);
     for (int k = 0; k < 400 && g_log.count('D') < 1; ++k)
@@ -352,6 +439,8 @@ std::string drive(const char* tag, uint16_t port, int rounds, const std::string&
         std::this_thread::sleep_for(std::chrono::milliseconds(5));
     // disarmed response timers (300 ms) have fired by then
     std::this_thread::sleep_for(std::chrono::milliseconds(behaviours.find('t') != std::string::npos ? 450 : 80));
+    for (int k = 0; k < 400 && g_late_running.load() > 0; ++k)
+        std::this_thread::sleep_for(std::chrono::milliseconds(5));
     int end = count_fds();
 
     std::vector<std::string> logs;
